@@ -135,8 +135,95 @@ def judge_stream(data, opts, pipe=False):
         core.log_on()
 
 
+def check_pollresp(case) -> core.Out:
+    """A receiver that only speaks when polled: one thread iterates over the reader, another
+    writes the polls through reader.datastream; after n answers the receiver hangs up.  The
+    iteration must terminate with the n answers (a reader that holds a lock while it waits
+    for data never lets the poll out)."""
+    import socket
+    import threading
+
+    n = case["polls"]
+    out = core.Out(classes=["poll-response"], dig=None)
+    out.nontrivial = True
+    out.sample = {"polls": n}
+    ans = codec.ubx_frame(b"\x0a", b"\x04", b"ROM CORE 3.01 (107888)".ljust(30, b"\0") + b"00080000".ljust(10, b"\0"))
+    poll = codec.ubx_frame(b"\x0a", b"\x04", b"")
+    a, b = socket.socketpair()
+    a.settimeout(90)  # (far longer than the budget below: the receiver never gives up first)
+    got, errs = [], []
+
+    def receiver():
+        try:
+            for _ in range(n):
+                need = len(poll)
+                while need > 0:
+                    chunk = a.recv(need)
+                    if not chunk:
+                        return
+                    need -= len(chunk)
+                a.sendall(ans)
+        except OSError as err:
+            errs.append(err)
+        finally:
+            a.close()
+
+    holder = {}
+    ready = threading.Event()
+
+    def reading():
+        try:
+            # (the wrapper's constructor waits for the first bytes: the first poll is sent on
+            # the socket itself before the reader exists)
+            b.sendall(poll)
+            rd = S.mk_reader(b, {"quitonerror": 0, "bufsize": case.get("bufsize", 4096)})
+            holder["rd"] = rd
+            ready.set()
+            for raw, parsed in rd:
+                got.append(raw)
+        except Exception as err:  # noqa
+            errs.append(err)
+        finally:
+            ready.set()
+
+    def writing():
+        try:
+            ready.wait(20)
+            rd = holder.get("rd")
+            for _ in range(n - 1):
+                if rd is None:
+                    return
+                rd.datastream.write(poll)
+                # (the answer is awaited by the reading thread; the next poll follows at once -
+                # the receiver serves them one by one)
+        except OSError as err:
+            errs.append(err)
+
+    ths = [threading.Thread(target=f, daemon=True) for f in (receiver, reading, writing)]
+    for t in ths:
+        t.start()
+    ths[1].join(15)
+    hung = ths[1].is_alive()
+    try:
+        b.close()
+    except OSError:
+        pass
+    for t in ths:
+        t.join(2)
+    if hung:
+        out.viol.append((f"{PROP}|hang|poll-response", f"iteration over a reader whose polls are written by another thread "
+                                                       f"did not end within 15 s ({len(got)} of {n} answers read)"))
+    elif len(got) != n or any(g != ans for g in got):
+        foreign = [e for e in errs if not isinstance(e, OSError)]
+        if foreign:
+            out.viol.append((f"{PROP}|read|{type(foreign[0]).__name__}|poll-response", repr(foreign[0])[:200]))
+    return out
+
+
 def check(case) -> core.Out:
     k = case["kind"]
+    if k == "pollresp":
+        return check_pollresp(case)
     if k == "frame":
         frame = bytes(case["frame"])
         o, viol = judge_parse(frame, case["mode"], case["validate"], case["bf"])
@@ -335,6 +422,10 @@ def run_shard(spec, ctx, acc):
                     o.sample = {"stream": data[:24], "len": len(data), "repeats": 1200, "opts": case["opts"]}
                     core.handle(acc, o, case, known)
         return
+    if spec["what"] == "sockets" and spec["part"] == 0:
+        for polls, bufsize in ((1, 4096), (5, 4096), (40, 64)):
+            case = {"kind": "pollresp", "polls": polls, "bufsize": bufsize}
+            core.handle(acc, check(case), case, known)
     if spec["what"] == "sockets":
         @st.composite
         def sk(draw):
